@@ -266,9 +266,29 @@ def real_history(args, scratch):
                         res["violations"].append(["key-written-outside-the-key-directory:%s" % ("socket" if path == "<socket>" else "file"), {"path": path, "syscall": line.strip()[:400], "script": script}])
                         break
             res["counts"]["write_syscalls_scanned"] = res["counts"].get("write_syscalls_scanned", 0) + writes_seen
+            dirfds = set()      # descriptors that refer to the key directory itself
             for line in merged:
-                if ("chmod(" in line or "fchmodat(" in line) and KEY_DIR in line and "0700" in line and "= 0" in line:
+                m = _re.match(r"^\s*(\d+)\s+(\w+)\((.*)$", line)
+                sc, rest = (m.group(2), m.group(3)) if m else ("", "")
+                ok = _re.search(r"=\s*0\s*$", line) is not None
+                # whichever call restricts it: by path (chmod/fchmodat, mkdir with a mode that grants nothing to group/other) or through a
+                # descriptor opened on the directory (fchmod)
+                if sc in ("chmod", "fchmodat") and ('"%s"' % KEY_DIR in line or '"%s/"' % KEY_DIR in line) and _re.search(r"\b0700\b", line) and ok:
                     restricted = True
+                if sc in ("mkdir", "mkdirat") and ('"%s"' % KEY_DIR in line or '"%s/"' % KEY_DIR in line) and _re.search(r"\b0700\)", line) and ok:
+                    restricted = True       # created with no access for group/other (a umask can only take more away)
+                if sc == "openat" and ('"%s"' % KEY_DIR in rest or '"%s/"' % KEY_DIR in rest):
+                    rm = _re.search(r"=\s*(\d+)\s*$", rest)
+                    if rm:
+                        dirfds.add(int(rm.group(1)))
+                if sc == "close":
+                    fm = _re.match(r"(\d+)\)", rest)
+                    if fm:
+                        dirfds.discard(int(fm.group(1)))
+                if sc == "fchmod" and ok:
+                    fm = _re.match(r"(\d+),\s*(\d+)", rest)
+                    if fm and int(fm.group(1)) in dirfds and fm.group(2) == "0700":
+                        restricted = True
                 if ("openat(" in line or "creat(" in line) and KEY_DIR + "/" in line and "O_CREAT" in line:
                     res["counts"]["key_file_creations_seen"] = res["counts"].get("key_file_creations_seen", 0) + 1
                     if not restricted:
